@@ -218,3 +218,85 @@ Definition select (inreg : region -> variant -> bool) (q : query) (recs : list v
   filter (fun x =>
             match q_region q with None => true | Some r => inreg r (fst x) end
             && match q_ids q with None => true | Some V => memZ (v_id (fst x)) V end) recs.
+
+(* ---- subset() as the implementation runs it, on any object a read can leave --- *)
+
+Definition E_Index : Z := 2.
+
+(* Genotypes.read stores an array of shape (0, 0, 0) when nothing matched, beside the
+   samples (and, with no sample selected, the variants) that were found.  On such an
+   object [data[samp_idx, :]] / [data[:, var_idx]] raise IndexError as soon as one
+   requested name is known; [fixed] = subset() leaves an array without cells alone
+   (fixes/C08_subset_after_empty_read.patch).  On every other object this is [subset]. *)
+Definition no_cells (g : geno) : bool := (nth 0 (g_shape g) 0 =? 0) && (nth 1 (g_shape g) 0 =? 0).
+
+Definition hits (req : option (list Z)) (have : list Z) : bool :=
+  match req with Some l => negb (is_nil (positions l have)) | None => false end.
+
+Definition subset_impl (fixed : bool) (g : geno) (S V : option (list Z)) : res geno :=
+  if no_cells g then
+    match subset g S V with
+    | Err e => Err e
+    | Ok r =>
+        if negb fixed && (hits S (g_samples g) || hits V (map v_id (g_variants g))) then Err E_Index
+        else Ok (mkg (g_samples r) (g_variants r) [] (g_shape g))
+    end
+  else subset g S V.
+
+(* a sequence of subset() calls on one object: a request is (samples, variants, keep);
+   keep = the call was in place, or the caller continues with the returned copy;
+   otherwise the next call is made on the same object again.  The run stops at the
+   first exception.  Result: for every call made, the object it was made on and what
+   it returned. *)
+Definition sreq := (option (list Z) * option (list Z) * bool)%type.
+
+Fixpoint run_subsets (fixed : bool) (g : geno) (reqs : list sreq) : list (geno * res geno) :=
+  match reqs with
+  | [] => []
+  | (sS, sV, keep) :: rest =>
+      let o := subset_impl fixed g sS sV in
+      (g, o) :: match o with
+                | Err _ => []
+                | Ok g' => run_subsets fixed (if keep then g' else g) rest
+                end
+  end.
+
+(* ---- a sample restriction that selects nobody ---------------------------------- *)
+
+(* [fixed] = the readers after fixes/C08_empty_sample_selection.patch: neither cyvcf2's
+   genotype array nor pgenlib's reader is asked for zero samples; the result is the
+   selected variants without any sample (and a warning).  [fixed = false] is the tree
+   as it is: AttributeError (cyvcf2) / RuntimeError (pgenlib). *)
+Definition sel_samples (c : geno) (q : query) : list Z :=
+  mask (keep_mask (q_samples q) (g_samples c)) (g_samples c).
+
+Definition vcf_iter_x (fixed : bool) (c : geno) (q : query) : res (list Z * list vrec) :=
+  if fixed && is_nil (sel_samples c q)
+  then Ok ([], map (fun r : vrec => (fst r, [])) (vcf_records c q))
+  else vcf_iter_q c q.
+
+Definition vcf_read_x (fixed : bool) (c : geno) (q : query) : res geno :=
+  if fixed && is_nil (sel_samples c q)
+  then let mv := match q_ids q with Some V => Some (lenZ V) | None => q_max q end in
+       Ok (mkg [] (map fst (take mv (vcf_records c q))) [] [0; 0; 0])
+  else vcf_read_q c q.
+
+Section PgenX.
+  Variable pload : scall -> scall.
+
+  Definition pgen_iter_x (fixed : bool) (c : geno) (q : query) : res (list Z * list vrec) :=
+    if fixed && is_nil (sel_samples c q) && negb (is_nil (g_variants c))
+    then Ok ([], map (fun r : vrec => (fst r, [])) (pgen_records c q))
+    else pgen_iter_q pload false c q.
+
+  Definition pgen_read_x (fixed : bool) (chunk : option Z) (c : geno) (q : query) : res geno :=
+    if fixed && is_nil (sel_samples c q) && negb (is_nil (g_variants c))
+    then let p := lenZ (g_variants c) in
+         let mv := match q_ids q with
+                   | Some V => lenZ V
+                   | None => match q_max q with None => p | Some k => Z.min k p end
+                   end in
+         let recs := firstn (Z.to_nat mv) (pgen_records c q) in
+         Ok (mkg [] (map fst recs) (map (fun _ => []) recs) [0; lenZ recs; 3])
+    else pgen_read_q pload false chunk c q.
+End PgenX.
